@@ -189,3 +189,55 @@ func VH_c02_statet_sequence_traverse_concat() {
 		vhCheckOrder(p, want, "FoldM", nil, a, b, c)
 	}
 }
+
+// Recover* on a StateT program: the program's steps run exactly once (never again for the recovery), a success
+// passes through with no handler call, the handler is called exactly once with the failing step's own error, and
+// when the predicate of a RecoverCase* does not match the failure is returned unchanged.
+func VH_c02_statet_recover_variants() {
+	a, b := vhNewStep(1), vhNewStep(2)
+	p := FlatMapConst(a.prog(), b.prog())
+	hcalls, pcalls := 0, 0
+	var herr error
+	matches := zz.Bool("predicate")
+	pred := func(e error) bool { pcalls++; return matches }
+	hv := zz.Int("hv")
+	h := func(e error) int { hcalls++; herr = e; return hv }
+	hT := func(e error) fp.Try[int] { hcalls++; herr = e; return fp.Success(hv) }
+	hS := func(e error) fp.StateT[int, int] { hcalls++; herr = e; return Pure[int](hv) }
+	var r fp.StateT[int, int]
+	uncond := true
+	l := ""
+	switch zz.Choice("variant", 8) {
+	case 0:
+		r, l = p.Recover(h), "Recover"
+	case 1:
+		r, l = p.RecoverT(hT), "RecoverT"
+	case 2:
+		r, l = p.RecoverWithState(func(s int, e error) int { return h(e) }), "RecoverWithState"
+	case 3:
+		r, l = p.RecoverWithStateT(func(s int, e error) fp.Try[int] { return hT(e) }), "RecoverWithStateT"
+	case 4:
+		r, l = p.RecoverWith(hS), "RecoverWith"
+	case 5:
+		r, l, uncond = p.RecoverCase(pred, h), "RecoverCase", false
+	case 6:
+		r, l, uncond = p.RecoverCaseT(pred, hT), "RecoverCaseT", false
+	case 7:
+		r, l, uncond = p.RecoverCaseWith(pred, hS), "RecoverCaseWith", false
+	}
+	vhOrd = nil
+	s0 := zz.Int("s0")
+	res, _ := r(s0)
+	failed, _, wlog := vhRefRun(s0, a, b)
+	zz.Assert(vhSameLog(vhOrd, wlog), l+": the program's steps run exactly once, in order")
+	switch {
+	case failed < 0:
+		zz.Assert(res.IsSuccess() && res.Get() == b.v && hcalls == 0, l+": a success passes through, no handler call")
+	case uncond || matches:
+		werr := []vhStep{a, b}[failed].e
+		zz.Assert(res.IsSuccess() && res.Get() == hv && hcalls == 1 && herr == werr, l+": the handler runs once with the failing step's own error")
+	default:
+		werr := []vhStep{a, b}[failed].e
+		zz.Assert(res.IsFailure() && res.Failed().Get() == werr && hcalls == 0, l+": predicate does not match: the failure is returned unchanged, no handler call")
+	}
+}
